@@ -395,9 +395,13 @@ def string_position_trees():
     return out
 
 
-def sig_fun(kind, nparams, target_len, body=(), doc=None, tps=(), ret=None, public=False):
+T_EMPTY_TUPLE = ("T", "Tuple", [])
+T_FUN0 = ("T", "Fun", [T_EMPTY_TUPLE, gen.T_INT])
+
+
+def sig_fun(kind, nparams, target_len, body=(), doc=None, tps=(), ret=None, public=False, hints=None):
     """A function / method item whose signature line is exactly target_len characters long (parameter names padded)."""
-    hints = [gen.T_INT, gen.T_LIST_INT, gen.T_TUPLE, gen.T_FUN]
+    hints = hints or [gen.T_INT, gen.T_LIST_INT, gen.T_TUPLE, gen.T_FUN]
 
     def build(pad):
         params = [("p%d" % i + ("a" * (pad if i == nparams - 1 else 0)), hints[i % 4]) for i in range(nparams)]
@@ -432,6 +436,11 @@ def definition_items(quick=True):
                 for kind, doc, tps, ret, public in (("Fun", None, (), None, False), ("Fun", "Doc line.", ("T",), gen.T_INT, True),
                                                     ("Method", None, (), None, False), ("Method", "Two\nlines", (), gen.T_FUN, True)):
                     it = sig_fun(kind, n, L, body, doc, tps, ret, public)
+                    if it is not None:
+                        progs.append([it])
+                # hints whose text is special-cased by the printer the wrapper uses: the empty tuple, alone and inside Fun<..>
+                if n >= 1:
+                    it = sig_fun("Fun", n, L, body, None, (), T_FUN0, False, hints=[T_FUN0, T_EMPTY_TUPLE, gen.T_INT, gen.T_INT])
                     if it is not None:
                         progs.append([it])
     # every item kind with optional parts on/off (c33's item set over a small body pool)
